@@ -4,6 +4,11 @@ Import ListNotations.
 From VF Require Import C19.Model.
 Local Open Scope N_scope.
 
+(* case analysis on every match of the goal *)
+Ltac dm := repeat match goal with
+  | |- context [match ?x with _ => _ end] => destruct x eqn:?
+  end.
+
 (* ---------- the gate ---------- *)
 
 Lemma find_session_some : forall ss t k s,
@@ -38,11 +43,24 @@ Proof.
   rewrite Ht, Hu, !N.eqb_refl, Hl. reflexivity.
 Qed.
 
-Lemma content_op_admitted : forall st u k, k <> KCreateKey -> admitted (snd (content_op st u k)) = true.
+Lemma live_own_elim : forall st t u, live_own st t u = true ->
+  exists s, In s (sessions st) /\ s_tok s = t /\ s_user s = u /\ live (now st) s = true.
 Proof.
-  intros st u k Hk. destruct k; cbn; try congruence; try reflexivity.
-  - destruct (row_get _ _); reflexivity.
-  - destruct (row_get _ _); reflexivity.
+  intros st t u H. unfold live_own in H. apply existsb_exists in H. destruct H as [s [Hin H]].
+  apply andb_true_iff in H. destruct H as [H Hu]. apply andb_true_iff in H. destruct H as [Ht Hl].
+  apply N.eqb_eq in Ht. apply N.eqb_eq in Hu. exists s. auto.
+Qed.
+
+(* without a live session of the token nothing is admitted by the repaired code, whatever the method *)
+Lemma no_session_rejected : forall st i t k,
+  find_session (sessions st) (now st) t = None ->
+  admitted (snd (step Fixed st (WOp i t k))) = false.
+Proof.
+  intros st i t k Hn. cbn [step]. rewrite Hn.
+  destruct (nth_error (insts st) i) as [[u h]|]; [|reflexivity].
+  destruct (foreign (sessions st) (now st) t u); [reflexivity|].
+  destruct k; try (destruct h; reflexivity).
+  destruct m; destruct h; reflexivity.
 Qed.
 
 (* T1: on the repaired code an admitted token operation presented a live token of the instance's own profile *)
@@ -51,13 +69,26 @@ Lemma admitted_own : forall st i t k u h,
   admitted (snd (step Fixed st (WOp i t k))) = true ->
   live_own st t u = true.
 Proof.
-  intros st i t k u h Hi Ha. cbn [step] in Ha. rewrite Hi in Ha.
-  destruct (foreign (sessions st) (now st) t u) eqn:Hf; [cbn in Ha; discriminate|].
+  intros st i t k u h Hi Ha.
   destruct (find_session (sessions st) (now st) t) as [s|] eqn:Hs.
   - apply find_session_some in Hs. destruct Hs as [Hin [Ht Hl]].
+    cbn [step] in Ha. rewrite Hi in Ha.
+    destruct (foreign (sessions st) (now st) t u) eqn:Hf; [cbn in Ha; discriminate|].
     eapply live_own_intro; eauto. eapply not_foreign_own; eauto.
-  - destruct k; cbn in Ha; try discriminate; destruct h; cbn in Ha; discriminate.
+  - rewrite (no_session_rejected st i t k Hs) in Ha. discriminate.
 Qed.
+
+Lemma content_op_admitted : forall st u k,
+  match k with KCreateKey | KImportKey _ | KUse _ _ _ => False | _ => True end ->
+  admitted (snd (content_op st u k)) = true.
+Proof. intros st u k Hk. destruct k; cbn in *; try contradiction; dm; reflexivity. Qed.
+
+Lemma use_op_admitted : forall st u m c kn su, admitted (use_op st u m c kn su) = true.
+Proof. intros. unfold use_op. dm; reflexivity. Qed.
+
+Lemma use_op_cases : forall st u m c kn su,
+  use_op st u m c kn su = RDone \/ use_op st u m c kn su = RNotFound.
+Proof. intros. unfold use_op. dm; auto. Qed.
 
 (* T2: a rejected token operation leaves the whole state (stores, keys, sessions AND their expiries) as it was *)
 Lemma rejected_same : forall v st i t k,
@@ -67,26 +98,42 @@ Proof.
   destruct (nth_error (insts st) i) as [[u h]|]; [|reflexivity].
   destruct (match v with Fixed => foreign (sessions st) (now st) t u | AsIs => false end); [reflexivity|].
   destruct k.
-  all: try (destruct h; cbn [negb] in *; [|reflexivity];
-            destruct (find_session (sessions st) (now st) t); [|reflexivity];
-            exfalso; match type of Ha with admitted (snd (content_op ?a ?b ?c)) = false =>
-              assert (X : admitted (snd (content_op a b c)) = true) by (apply content_op_admitted; congruence) end;
-            congruence).
-  destruct (find_session (sessions st) (now st) t); [cbn in Ha; discriminate|reflexivity].
+  - destruct h; cbn [negb] in *; [|reflexivity].
+    destruct (find_session (sessions st) (now st) t); [|reflexivity].
+    rewrite content_op_admitted in Ha; [discriminate|exact I].
+  - destruct h; cbn [negb] in *; [|reflexivity].
+    destruct (find_session (sessions st) (now st) t); [|reflexivity].
+    rewrite content_op_admitted in Ha; [discriminate|exact I].
+  - destruct h; cbn [negb] in *; [|reflexivity].
+    destruct (find_session (sessions st) (now st) t); [|reflexivity].
+    rewrite content_op_admitted in Ha; [discriminate|exact I].
+  - destruct h; cbn [negb] in *; [|reflexivity].
+    destruct (find_session (sessions st) (now st) t); [|reflexivity].
+    rewrite content_op_admitted in Ha; [discriminate|exact I].
+  - destruct (find_session (sessions st) (now st) t); [cbn in Ha; discriminate|reflexivity].
+  - destruct (find_session (sessions st) (now st) t); [|reflexivity].
+    destruct (key_id_taken (keys st) kn); cbn in Ha; discriminate.
+  - destruct h; cbn [negb] in *; [|reflexivity].
+    destruct (find_session (sessions st) (now st) t); [|reflexivity].
+    rewrite content_op_admitted in Ha; [discriminate|exact I].
+  - destruct h; cbn [negb] in *; [|reflexivity].
+    destruct (find_session (sessions st) (now st) t); [|reflexivity].
+    rewrite content_op_admitted in Ha; [discriminate|exact I].
+  - destruct (match v with Fixed => pre_session m | AsIs => false end &&
+              match find_session (sessions st) (now st) t with None => true | Some _ => false end); [reflexivity|].
+    destruct (store_use m), h, (find_session (sessions st) (now st) t); try reflexivity;
+      destruct (uses_km m); cbn [andb fst snd] in *; try reflexivity;
+      rewrite use_op_admitted in Ha; discriminate.
 Qed.
 
-(* T3: a token without a live session (never issued, closed, expired) is rejected, by either variant *)
-Lemma dead_token_rejected : forall v st i t k,
+(* T3: a token without a live session (never issued, closed, expired) is rejected by the repaired code *)
+Lemma dead_token_rejected : forall st i t k,
   (forall s, In s (sessions st) -> s_tok s = t -> live (now st) s = false) ->
-  admitted (snd (step v st (WOp i t k))) = false.
+  admitted (snd (step Fixed st (WOp i t k))) = false.
 Proof.
-  intros v st i t k Hd. cbn [step].
-  destruct (nth_error (insts st) i) as [[u h]|]; [|reflexivity].
-  destruct (match v with Fixed => foreign (sessions st) (now st) t u | AsIs => false end); [reflexivity|].
-  assert (Hn : find_session (sessions st) (now st) t = None).
-  { destruct (find_session (sessions st) (now st) t) as [s|] eqn:Hs; [|reflexivity].
-    apply find_session_some in Hs. destruct Hs as [Hin [Ht Hl]]. rewrite (Hd s Hin Ht) in Hl. discriminate. }
-  rewrite Hn. destruct k; try reflexivity; destruct h; reflexivity.
+  intros st i t k Hd. apply no_session_rejected.
+  destruct (find_session (sessions st) (now st) t) as [s|] eqn:Hs; [|reflexivity].
+  apply find_session_some in Hs. destruct Hs as [Hin [Ht Hl]]. rewrite (Hd s Hin Ht) in Hl. discriminate.
 Qed.
 
 (* T3': a token of another profile is rejected on the repaired code even while it is live *)
@@ -108,7 +155,7 @@ Lemma close_revokes : forall v st i u h t,
   live_own (fst (step v st (WClose i))) t u = false.
 Proof.
   intros v st i u h t Hi. cbn [step]. rewrite Hi.
-  destruct (user_live (sessions st) (now st) u) eqn:Hu; cbn [fst]; unfold live_own; cbn [sessions now].
+  destruct (user_live (sessions st) (now st) u) eqn:Hu; cbn [fst]; unfold live_own; cbn [sessions now upd_open].
   - apply not_true_iff_false. intro H. apply existsb_exists in H. destruct H as [s [Hin H]].
     unfold drop_user in Hin. apply filter_In in Hin. destruct Hin as [_ Hf].
     apply andb_true_iff in H. destruct H as [H Hus]. apply andb_true_iff in H. destruct H as [_ Hl].
@@ -120,11 +167,37 @@ Proof.
     congruence.
 Qed.
 
-(* expiry: once the clock has passed the expiry of every session of a token, the token is rejected;
-   a session's expiry is now + ttl after each admitted use and is moved by nothing else (rejected_same, tick below) *)
-Lemma tick_keeps_sessions : forall v st dt,
-  sessions (fst (step v st (WTick dt))) = sessions st /\ now (fst (step v st (WTick dt))) = now st + dt.
-Proof. intros; cbn; auto. Qed.
+Lemma tick_expires : forall st t dt i k,
+  (forall s, In s (sessions st) -> s_tok s = t -> s_exp s < now st + dt) ->
+  admitted (snd (step Fixed (fst (step Fixed st (WTick dt))) (WOp i t k))) = false.
+Proof.
+  intros st t dt i k H. apply dead_token_rejected. cbn [step fst sessions now upd_now].
+  intros s Hin Ht. unfold live. specialize (H s Hin Ht).
+  apply negb_false_iff. apply N.ltb_lt. exact H.
+Qed.
+
+(* ---------- what a token operation can touch at all ---------- *)
+
+Lemma wop_frame : forall v st i t k,
+  let st' := fst (step v st (WOp i t k)) in
+  now st' = now st /\ next_tok st' = next_tok st /\ insts st' = insts st /\ stores st' = stores st /\
+  profiles st' = profiles st /\
+  (sessions st' = sessions st \/ sessions st' = refresh (sessions st) (now st) t).
+Proof.
+  intros v st i t k. cbn [step].
+  destruct (nth_error (insts st) i) as [[u h]|]; [|cbn; auto 10].
+  destruct (match v with Fixed => foreign (sessions st) (now st) t u | AsIs => false end); [cbn; auto 10|].
+  destruct k; cbn [content_op]; dm; cbn; auto 10.
+Qed.
+
+Lemma refresh_src : forall ss t k s', In s' (refresh ss t k) ->
+  exists s, In s ss /\ s_tok s = s_tok s' /\ s_user s = s_user s' /\ (live t s' = true -> live t s = true).
+Proof.
+  intros ss t k s' H. unfold refresh in H. apply in_map_iff in H. destruct H as [s [Hs Hin]].
+  exists s. split; [exact Hin|].
+  destruct ((s_tok s =? k) && live t s) eqn:E; subst s'; cbn; auto.
+  apply andb_true_iff in E. destruct E as [_ E]. auto.
+Qed.
 
 Lemma refresh_exp : forall ss t k s',
   In s' (refresh ss t k) -> s_tok s' = k -> live t s' = true -> s_exp s' = t + s_ttl s'.
@@ -166,30 +239,56 @@ Proof.
   apply insert_row_in in H. destruct H as [H|H]; auto.
 Qed.
 
-(* whatever Get / GetAll hand back through an instance of profile u is a row of profile u's store *)
-Lemma get_reads_own : forall v st i t c u h st' x,
-  nth_error (insts st) i = Some (u, h) ->
-  step v st (WOp i t (KGet c)) = (st', RVal x) -> In (u, (c, x)) (contents st).
+(* what a data-level content operation on the store of u can return comes from u's rows *)
+Lemma content_op_reads_own : forall st u k st' r,
+  content_op st u k = (st', r) ->
+  (forall x, r = RVal x -> exists c, k = KGet c /\ In (u, (c, x)) (contents st)) /\
+  (forall l, r = RAll l -> forall c x, In (c, x) l -> In (u, (c, x)) (contents st)).
 Proof.
-  intros v st i t c u h st' x Hi H. cbn [step] in H. rewrite Hi in H.
-  destruct (match v with Fixed => foreign (sessions st) (now st) t u | AsIs => false end); [discriminate|].
-  destruct h; cbn [negb] in H; [|discriminate].
-  destruct (find_session (sessions st) (now st) t); [|discriminate].
-  unfold content_op in H. cbn [contents upd_sessions] in H.
-  destruct (row_get (rows_of (contents st) u) c) eqn:E; inversion H; subst.
-  apply rows_of_in. apply row_get_in. exact E.
+  intros st u k st' r H. destruct k; cbn [content_op] in H.
+  - destruct (row_get _ _); inversion H; subst; split; intros; discriminate.
+  - destruct (row_get (rows_of (contents st) u) c) eqn:E; inversion H; subst; split; intros; try discriminate.
+    inversion H0; subst. exists c. split; [reflexivity|]. apply rows_of_in. apply row_get_in. exact E.
+  - inversion H; subst. split; intros; try discriminate. inversion H0; subst.
+    apply rows_of_in. apply sort_rows_in in H1. unfold of_type in H1. apply filter_In in H1. tauto.
+  - inversion H; subst; split; intros; discriminate.
+  - inversion H; subst; split; intros; discriminate.
+  - inversion H; subst; split; intros; discriminate.
+  - destruct (row_get (rows_of (contents st) u) col); [|inversion H; subst; split; intros; discriminate].
+    destruct (row_get (rows_of (contents st) u) c); inversion H; subst; split; intros; discriminate.
+  - destruct (forallb _ _); inversion H; subst; split; intros; try discriminate. inversion H0; subst.
+    apply rows_of_in. apply sort_rows_in in H1. apply filter_In in H1. destruct H1 as [H1 _].
+    unfold of_type in H1. apply filter_In in H1. tauto.
+  - inversion H; subst; split; intros; discriminate.
 Qed.
 
-Lemma getall_reads_own : forall v st i t u h st' l,
+(* a token operation returns data only through content_op on the rows of the instance's own profile *)
+Lemma wop_reads_own : forall v st i t k u h st' r,
   nth_error (insts st) i = Some (u, h) ->
-  step v st (WOp i t KGetAll) = (st', RAll l) -> forall c x, In (c, x) l -> In (u, (c, x)) (contents st).
+  step v st (WOp i t k) = (st', r) ->
+  (forall x, r = RVal x -> exists c, k = KGet c /\ In (u, (c, x)) (contents st)) /\
+  (forall l, r = RAll l -> forall c x, In (c, x) l -> In (u, (c, x)) (contents st)).
 Proof.
-  intros v st i t u h st' l Hi H c x Hin. cbn [step] in H. rewrite Hi in H.
-  destruct (match v with Fixed => foreign (sessions st) (now st) t u | AsIs => false end); [discriminate|].
-  destruct h; cbn [negb] in H; [|discriminate].
-  destruct (find_session (sessions st) (now st) t); [|discriminate].
-  unfold content_op in H. cbn [contents upd_sessions] in H.
-  inversion H; subst. apply rows_of_in. apply sort_rows_in. exact Hin.
+  intros v st i t k u h st' r Hi H. cbn [step] in H. rewrite Hi in H.
+  assert (Triv : forall r0, (r0 = RBadToken \/ r0 = RLocked \/ r0 = RExists \/ r0 = RDone \/ r0 = RNotFound \/
+                             (exists n, r0 = RKey n)) ->
+     (forall x, r0 = RVal x -> exists c, k = KGet c /\ In (u, (c, x)) (contents st)) /\
+     (forall l, r0 = RAll l -> forall c x, In (c, x) l -> In (u, (c, x)) (contents st))).
+  { intros r0 Hr. split; intros; subst; repeat (destruct Hr as [Hr|Hr]; try discriminate); destruct Hr; discriminate. }
+  destruct (match v with Fixed => foreign (sessions st) (now st) t u | AsIs => false end);
+    [inversion H; subst; apply Triv; auto|].
+  destruct k.
+  all: try (destruct h; cbn [negb] in H; [|inversion H; subst; apply Triv; auto];
+            destruct (find_session (sessions st) (now st) t); [|inversion H; subst; apply Triv; auto];
+            apply content_op_reads_own in H; cbn [contents upd_sessions] in H; exact H).
+  - destruct (find_session (sessions st) (now st) t); inversion H; subst; apply Triv; eauto 10.
+  - destruct (find_session (sessions st) (now st) t); [|inversion H; subst; apply Triv; auto].
+    destruct (key_id_taken (keys st) kn); inversion H; subst; apply Triv; auto.
+  - revert H. dm; intro H; inversion H; subst; try solve [apply Triv; auto 10];
+      match goal with
+      | |- context [use_op ?a ?b ?c ?d ?e ?f] =>
+          destruct (use_op_cases a b c d e f) as [X|X]; rewrite X; apply Triv; auto 10
+      end.
 Qed.
 
 Lemma filter_filter_weaker : forall (A : Type) (f g : A -> bool) l,
@@ -204,19 +303,30 @@ Qed.
 Lemma rows_of_cons_other : forall cs u u' p, (u =? u') = false -> rows_of ((u, p) :: cs) u' = rows_of cs u'.
 Proof. intros cs u u' p H. unfold rows_of. cbn [filter fst]. rewrite H. reflexivity. Qed.
 
+Lemma rows_of_remove_other : forall cs u u' c, (u =? u') = false ->
+  rows_of (filter (fun r => negb ((fst r =? u) && (fst (snd r) =? c))) cs) u' = rows_of cs u'.
+Proof.
+  intros cs u u' c Hu. unfold rows_of. f_equal. apply filter_filter_weaker. intros [a [b d]] Hx. cbn [fst snd] in *.
+  apply N.eqb_eq in Hx. subst a. rewrite N.eqb_sym, Hu. reflexivity.
+Qed.
+
+Lemma content_op_others : forall st u k u', (u =? u') = false ->
+  rows_of (contents (fst (content_op st u k))) u' = rows_of (contents st) u'.
+Proof.
+  intros st u k u' Hu. destruct k; cbn [content_op]; dm; cbn [fst contents upd_contents upd_maps];
+    try reflexivity; try (apply rows_of_cons_other; exact Hu); apply rows_of_remove_other; exact Hu.
+Qed.
+
 (* no operation through an instance of profile u (and no other operation at all) touches the rows of u' <> u *)
 Lemma others_rows_untouched : forall v st o u',
   (forall i t k, o = WOp i t k -> inst_user st i <> Some u') ->
   rows_of (contents (fst (step v st o))) u' = rows_of (contents st) u'.
 Proof.
   intros v st o u' Hno. destruct o as [u|u|i p ttl|i|dt|i t k]; cbn [step].
-  - destruct (existsb (N.eqb u) (profiles st)); reflexivity.
-  - destruct (negb (existsb (N.eqb u) (profiles st))); [reflexivity|].
-    destruct (store_get (stores st) u); [destruct (_ <? _)|]; reflexivity.
-  - destruct (nth_error (insts st) i) as [[u h]|]; [|reflexivity].
-    destruct (negb p); [reflexivity|]. destruct (user_live _ _ _); reflexivity.
-  - destruct (nth_error (insts st) i) as [[u h]|]; [|reflexivity].
-    destruct (user_live _ _ _); reflexivity.
+  - dm; reflexivity.
+  - dm; reflexivity.
+  - dm; reflexivity.
+  - dm; reflexivity.
   - reflexivity.
   - specialize (Hno i t k eq_refl). unfold inst_user in Hno.
     destruct (nth_error (insts st) i) as [[u h]|]; [|reflexivity].
@@ -224,44 +334,56 @@ Proof.
     { destruct (u =? u') eqn:E; [apply N.eqb_eq in E; subst; exfalso; apply Hno; reflexivity|reflexivity]. }
     destruct (match v with Fixed => foreign (sessions st) (now st) t u | AsIs => false end); [reflexivity|].
     destruct k.
-    5: { destruct (find_session _ _ _); reflexivity. }
-    all: destruct h; cbn [negb]; [|reflexivity]; destruct (find_session _ _ _); [|reflexivity]; cbn.
-    + destruct (row_get _ _); cbn [fst contents upd_contents]; [reflexivity|]. apply rows_of_cons_other. exact Hu.
-    + destruct (row_get _ _); reflexivity.
-    + reflexivity.
-    + unfold rows_of. f_equal. apply filter_filter_weaker. intros [a [b d]] Hx. cbn [fst snd] in *.
-      apply N.eqb_eq in Hx. subst a. rewrite N.eqb_sym, Hu. reflexivity.
+    all: try (destruct h; cbn [negb]; [|reflexivity]; destruct (find_session _ _ _); [|reflexivity];
+              rewrite (content_op_others _ u _ u' Hu); reflexivity).
+    + dm; reflexivity.
+    + dm; reflexivity.
+    + dm; reflexivity.
 Qed.
 
 (* ---------- history invariants ---------- *)
 
 Definition add_rec (st : wstate) (o : wop) (x : wout) : list (user * (cid * N)) :=
   match o, x with
-  | WOp i _ (KAdd c n), RDone => match inst_user st i with Some u => [(u, (c, n))] | None => [] end
+  | WOp i _ (KAdd c n), RDone | WOp i _ (KAddIn c n _), RDone =>
+      match inst_user st i with Some u => [(u, (c, n))] | None => [] end
   | _, _ => []
   end.
+
+Lemma content_op_adds : forall st u k row,
+  In row (contents (fst (content_op st u k))) ->
+  In row (contents st) \/
+  (snd (content_op st u k) = RDone /\ exists c n, row = (u, (c, n)) /\ (k = KAdd c n \/ exists col, k = KAddIn c n col)).
+Proof.
+  intros st u k row H. destruct k; cbn [content_op] in *; try (left; exact H).
+  - destruct (row_get _ _); cbn in *; auto. destruct H as [H|H]; auto. right. split; [reflexivity|]. eauto 6.
+  - destruct (row_get _ _); auto.
+  - cbn in H. apply filter_In in H. tauto.
+  - destruct (row_get (rows_of (contents st) u) col); cbn in *; auto.
+    destruct (row_get (rows_of (contents st) u) c); cbn in *; auto.
+    destruct H as [H|H]; auto. right. split; [reflexivity|]. eauto 8.
+  - destruct (forallb _ _); auto.
+Qed.
 
 Lemma step_contents : forall v st o row,
   In row (contents (fst (step v st o))) ->
   In row (contents st) \/ In row (add_rec st o (snd (step v st o))).
 Proof.
   intros v st o row H. destruct o as [u|u|i p ttl|i|dt|i t k]; cbn [step] in *.
-  - destruct (existsb (N.eqb u) (profiles st)); auto.
-  - destruct (negb (existsb (N.eqb u) (profiles st))); auto.
-    destruct (store_get (stores st) u); [destruct (_ <? _)|]; auto.
-  - destruct (nth_error (insts st) i) as [[u h]|]; auto.
-    destruct (negb p); auto. destruct (user_live _ _ _); auto.
-  - destruct (nth_error (insts st) i) as [[u h]|]; auto. destruct (user_live _ _ _); auto.
+  - revert H. dm; cbn; auto.
+  - revert H. dm; cbn; auto.
+  - revert H. dm; cbn; auto.
+  - revert H. dm; cbn; auto.
   - auto.
   - unfold add_rec, inst_user.
     destruct (nth_error (insts st) i) as [[u h]|]; auto.
     destruct (match v with Fixed => foreign (sessions st) (now st) t u | AsIs => false end); auto.
     destruct k.
-    5: { destruct (find_session _ _ _); auto. }
-    all: destruct h; cbn [negb] in *; auto; destruct (find_session _ _ _); auto; cbn in *.
-    + destruct (row_get _ _); cbn in *; auto; destruct H as [H|H]; auto; right; left; auto.
-    + destruct (row_get _ _); auto.
-    + apply filter_In in H. destruct H. auto.
+    all: try (destruct h; cbn [negb] in *; auto; destruct (find_session _ _ _); auto;
+              apply content_op_adds in H; cbn [contents upd_sessions] in H;
+              destruct H as [H|[Hr [c0 [n0 [Hrow Hk]]]]]; auto;
+              destruct Hk as [Hk|[col0 Hk]]; inversion Hk; subst; right; rewrite Hr; left; reflexivity).
+    all: revert H; dm; cbn; auto.
 Qed.
 
 Lemma rows_provenance_gen : forall v ops st row,
@@ -285,13 +407,6 @@ Definition grant_rec (st : wstate) (o : wop) (x : wout) : list (tok * user) :=
   | _, _ => []
   end.
 
-Lemma refresh_proj : forall ss t k s', In s' (refresh ss t k) ->
-  exists s, In s ss /\ s_tok s = s_tok s' /\ s_user s = s_user s'.
-Proof.
-  intros ss t k s' H. unfold refresh in H. apply in_map_iff in H. destruct H as [s [Hs Hin]].
-  exists s. split; [exact Hin|]. destruct ((s_tok s =? k) && live t s); subst s'; auto.
-Qed.
-
 Lemma step_sessions : forall v st o s',
   In s' (sessions (fst (step v st o))) ->
   (exists s, In s (sessions st) /\ s_tok s = s_tok s' /\ s_user s = s_user s') \/
@@ -301,27 +416,19 @@ Proof.
   assert (Hsame : In s' (sessions st) -> (exists s, In s (sessions st) /\ s_tok s = s_tok s' /\ s_user s = s_user s') \/
                                        In (s_tok s', s_user s') (grant_rec st o (snd (step v st o)))).
   { intro. left. exists s'. auto. }
-  destruct o as [u|u|i p ttl|i|dt|i t k]; cbn [step] in *.
-  - destruct (existsb (N.eqb u) (profiles st)); auto.
-  - destruct (negb (existsb (N.eqb u) (profiles st))); auto.
-    destruct (store_get (stores st) u); [destruct (_ <? _)|]; auto.
-  - unfold grant_rec, inst_user. destruct (nth_error (insts st) i) as [[u h]|]; auto.
+  destruct o as [u|u|i p ttl|i|dt|i t k].
+  - cbn [step] in *. revert H Hsame. dm; cbn; auto.
+  - cbn [step] in *. revert H Hsame. dm; cbn; auto.
+  - cbn [step] in *. unfold grant_rec, inst_user in *. destruct (nth_error (insts st) i) as [[u h]|]; auto.
     destruct (negb p); auto. destruct (user_live _ _ _); auto.
     cbn in H. destruct H as [H|H].
     + right. subst s'. cbn. auto.
     + left. exists s'. auto.
-  - destruct (nth_error (insts st) i) as [[u h]|]; auto. destruct (user_live _ _ _); auto.
+  - cbn [step] in *. destruct (nth_error (insts st) i) as [[u h]|]; auto. destruct (user_live _ _ _); auto.
     cbn in H. unfold drop_user in H. apply filter_In in H. destruct H. left. exists s'. auto.
   - auto.
-  - destruct (nth_error (insts st) i) as [[u h]|]; auto.
-    destruct (match v with Fixed => foreign (sessions st) (now st) t u | AsIs => false end); auto.
-    destruct k.
-    5: { destruct (find_session _ _ _); auto. cbn in H. left. eapply refresh_proj; eauto. }
-    all: destruct h; cbn [negb] in *; auto; destruct (find_session _ _ _); auto; cbn in *.
-    + destruct (row_get _ _); cbn in *; left; eapply refresh_proj; eauto.
-    + destruct (row_get _ _); cbn in *; left; eapply refresh_proj; eauto.
-    + left; eapply refresh_proj; eauto.
-    + left; eapply refresh_proj; eauto.
+  - destruct (wop_frame v st i t k) as [_ [_ [_ [_ [_ [Hs|Hs]]]]]]; rewrite Hs in H; auto.
+    left. apply refresh_src in H. destruct H as [s [Hin [Ht [Hu _]]]]. exists s. auto.
 Qed.
 
 Lemma sessions_granted_gen : forall v ops st s',
@@ -342,35 +449,43 @@ Proof.
     + right. apply in_or_app. auto.
 Qed.
 
-(* keys (repaired code): every key row is wrapped for the profile through whose instance it was created *)
+(* keys (repaired code): every key row is wrapped for the profile through whose instance it was created / imported *)
 Definition key_rec (st : wstate) (o : wop) (x : wout) : list (N * user) :=
   match o, x with
-  | WOp i _ KCreateKey, RKey k => match inst_user st i with Some u => [(k, u)] | None => [] end
+  | WOp i _ KCreateKey, RKey k | WOp i _ (KImportKey k), RDone =>
+      match inst_user st i with Some u => [(k, u)] | None => [] end
   | _, _ => []
   end.
+
+Lemma content_op_keys : forall st u k, keys (fst (content_op st u k)) = keys st.
+Proof. intros. destruct k; cbn [content_op]; dm; reflexivity. Qed.
 
 Lemma step_keys : forall st o row,
   In row (keys (fst (step Fixed st o))) ->
   In row (keys st) \/ In row (key_rec st o (snd (step Fixed st o))).
 Proof.
   intros st o row H. destruct o as [u|u|i p ttl|i|dt|i t k]; cbn [step] in *.
-  - destruct (existsb (N.eqb u) (profiles st)); auto.
-  - destruct (negb (existsb (N.eqb u) (profiles st))); auto.
-    destruct (store_get (stores st) u); [destruct (_ <? _)|]; auto.
-  - destruct (nth_error (insts st) i) as [[u h]|]; auto.
-    destruct (negb p); auto. destruct (user_live _ _ _); auto.
-  - destruct (nth_error (insts st) i) as [[u h]|]; auto. destruct (user_live _ _ _); auto.
+  - revert H. dm; cbn; auto.
+  - revert H. dm; cbn; auto.
+  - revert H. dm; cbn; auto.
+  - revert H. dm; cbn; auto.
   - auto.
   - unfold key_rec, inst_user.
     destruct (nth_error (insts st) i) as [[u h]|]; auto.
     destruct (foreign (sessions st) (now st) t u) eqn:Hf; auto.
     destruct k.
-    5: { destruct (find_session (sessions st) (now st) t) as [s|] eqn:Hs; auto. cbn in *.
-         destruct H as [H|H]; auto. right. left. subst row.
-         apply find_session_some in Hs. destruct Hs as [Hin [Ht Hl]].
-         rewrite (not_foreign_own _ _ _ _ _ Hf Hin Ht Hl). reflexivity. }
-    all: destruct h; cbn [negb] in *; auto; destruct (find_session _ _ _); auto; cbn in *.
-    all: try (destruct (row_get _ _); cbn in *; auto); auto.
+    all: try (destruct h; cbn [negb] in *; auto; destruct (find_session _ _ _); auto;
+              rewrite content_op_keys in H; cbn in H; auto).
+    + destruct (find_session (sessions st) (now st) t) as [s|] eqn:Hs; auto. cbn in *.
+      destruct H as [H|H]; auto. right. left. subst row.
+      apply find_session_some in Hs. destruct Hs as [Hin [Ht Hl]].
+      rewrite (not_foreign_own _ _ _ _ _ Hf Hin Ht Hl). reflexivity.
+    + destruct (find_session (sessions st) (now st) t) as [s|] eqn:Hs; auto.
+      destruct (key_id_taken (keys st) kn); cbn in *; auto.
+      destruct H as [H|H]; auto. right. left. subst row.
+      apply find_session_some in Hs. destruct Hs as [Hin [Ht Hl]].
+      rewrite (not_foreign_own _ _ _ _ _ Hf Hin Ht Hl). reflexivity.
+    + revert H. dm; cbn; auto.
 Qed.
 
 Lemma keys_provenance_gen : forall ops st row,
@@ -392,22 +507,15 @@ Lemma step_grant : forall v st o,
   (exists u, grant_rec st o (snd (step v st o)) = [(next_tok st, u)] /\
              next_tok (fst (step v st o)) = next_tok st + 1).
 Proof.
-  intros v st o. destruct o as [u|u|i p ttl|i|dt|i t k]; cbn [step].
-  - left. destruct (existsb (N.eqb u) (profiles st)); auto.
-  - left. destruct (negb (existsb (N.eqb u) (profiles st))); auto.
-    destruct (store_get (stores st) u); [destruct (_ <? _)|]; auto.
-  - unfold grant_rec, inst_user. destruct (nth_error (insts st) i) as [[u h]|]; auto.
+  intros v st o. destruct o as [u|u|i p ttl|i|dt|i t k].
+  - left. cbn [step]. dm; auto.
+  - left. cbn [step]. dm; auto.
+  - cbn [step]. unfold grant_rec, inst_user. destruct (nth_error (insts st) i) as [[u h]|]; auto.
     destruct (negb p); auto. destruct (user_live _ _ _); auto.
     right. exists u. cbn. auto.
-  - left. destruct (nth_error (insts st) i) as [[u h]|]; auto. destruct (user_live _ _ _); auto.
+  - left. cbn [step]. dm; auto.
   - left. auto.
-  - left. unfold grant_rec. split; [reflexivity|].
-    destruct (nth_error (insts st) i) as [[u h]|]; auto.
-    destruct (match v with Fixed => foreign (sessions st) (now st) t u | AsIs => false end); auto.
-    destruct k.
-    5: { destruct (find_session _ _ _); auto. }
-    all: destruct h; cbn [negb]; auto; destruct (find_session _ _ _); auto; cbn.
-    all: try (destruct (row_get _ _); cbn; auto); auto.
+  - left. split; [reflexivity|]. apply (wop_frame v st i t k).
 Qed.
 
 Lemma grants_fresh_gen : forall v ops st,
@@ -431,14 +539,6 @@ Qed.
 
 (* ---------- assembled statements ---------- *)
 
-Lemma live_own_elim : forall st t u, live_own st t u = true ->
-  exists s, In s (sessions st) /\ s_tok s = t /\ s_user s = u /\ live (now st) s = true.
-Proof.
-  intros st t u H. unfold live_own in H. apply existsb_exists in H. destruct H as [s [Hin H]].
-  apply andb_true_iff in H. destruct H as [H Hu]. apply andb_true_iff in H. destruct H as [Ht Hl].
-  apply N.eqb_eq in Ht. apply N.eqb_eq in Hu. exists s. auto.
-Qed.
-
 Lemma admitted_granted : forall ops i t k u h,
   nth_error (insts (fst (run Fixed init ops))) i = Some (u, h) ->
   admitted (snd (step Fixed (fst (run Fixed init ops)) (WOp i t k))) = true ->
@@ -449,15 +549,6 @@ Proof.
   apply sessions_granted_gen in Hin. destruct Hin as [[s0 [Hin0 _]]|Hin].
   - cbn in Hin0. contradiction.
   - rewrite Ht, Hu in Hin. exact Hin.
-Qed.
-
-Lemma tick_expires : forall v st t dt i k,
-  (forall s, In s (sessions st) -> s_tok s = t -> s_exp s < now st + dt) ->
-  admitted (snd (step v (fst (step v st (WTick dt))) (WOp i t k))) = false.
-Proof.
-  intros v st t dt i k H. apply dead_token_rejected. cbn [step fst sessions now].
-  intros s Hin Ht. unfold live. specialize (H s Hin Ht).
-  apply negb_false_iff. apply N.ltb_lt. exact H.
 Qed.
 
 Lemma rows_provenance : forall v ops row,
@@ -475,29 +566,10 @@ Qed.
 Lemma grants_once : forall v ops, NoDup (map fst (grants_run v init ops)).
 Proof. intros v ops. apply (grants_fresh_gen v ops init). Qed.
 
-(* ---------- at most one live token per profile (this is what makes "close removes THE session" exact) ---------- *)
-(* at most one live token per profile *)
+(* ---------- at most one live token per profile ---------- *)
 Definition uniq_live (st : wstate) : Prop :=
   forall s1 s2, In s1 (sessions st) -> In s2 (sessions st) ->
     live (now st) s1 = true -> live (now st) s2 = true -> s_user s1 = s_user s2 -> s_tok s1 = s_tok s2.
-
-Lemma refresh_src : forall ss t k s', In s' (refresh ss t k) ->
-  exists s, In s ss /\ s_tok s = s_tok s' /\ s_user s = s_user s' /\ (live t s' = true -> live t s = true).
-Proof.
-  intros ss t k s' H. unfold refresh in H. apply in_map_iff in H. destruct H as [s [Hs Hin]].
-  exists s. split; [exact Hin|].
-  destruct ((s_tok s =? k) && live t s) eqn:E; subst s'; cbn; auto.
-  apply andb_true_iff in E. destruct E as [_ E]. auto.
-Qed.
-
-Lemma uniq_refresh : forall st k,
-  uniq_live st -> uniq_live (upd_sessions st (refresh (sessions st) (now st) k)).
-Proof.
-  intros st k H s1 s2 H1 H2 L1 L2 Hu. cbn [sessions now upd_sessions] in *.
-  apply refresh_src in H1. apply refresh_src in H2.
-  destruct H1 as [a [Ha [Ta [Ua La]]]]. destruct H2 as [b [Hb [Tb [Ub Lb]]]].
-  rewrite <- Ta, <- Tb. apply H; auto. congruence.
-Qed.
 
 Lemma live_mono : forall t dt s, live (t + dt) s = true -> live t s = true.
 Proof.
@@ -507,13 +579,12 @@ Qed.
 
 Lemma step_uniq : forall v st o, uniq_live st -> uniq_live (fst (step v st o)).
 Proof.
-  intros v st o H. destruct o as [u|u|i p ttl|i|dt|i t k]; cbn [step].
-  - destruct (existsb (N.eqb u) (profiles st)); exact H.
-  - destruct (negb (existsb (N.eqb u) (profiles st))); [exact H|].
-    destruct (store_get (stores st) u); [destruct (_ <? _)|]; exact H.
-  - destruct (nth_error (insts st) i) as [[u h]|]; [|exact H].
+  intros v st o H. destruct o as [u|u|i p ttl|i|dt|i t k].
+  - cbn [step]. dm; exact H.
+  - cbn [step]. dm; exact H.
+  - cbn [step]. destruct (nth_error (insts st) i) as [[u h]|]; [|exact H].
     destruct (negb p); [exact H|]. destruct (user_live (sessions st) (now st) u) eqn:Hu; [exact H|].
-    intros s1 s2 H1 H2 L1 L2 Huu. cbn [fst sessions now] in *.
+    intros s1 s2 H1 H2 L1 L2 Huu. cbn [fst sessions now upd_open] in *.
     assert (Hno : forall s, In s (sessions st) -> live (now st) s = true -> s_user s = u -> False).
     { intros s Hin Hl Hus.
       assert (X : user_live (sessions st) (now st) u = true).
@@ -524,20 +595,20 @@ Proof.
     + subst s1. cbn in Huu. exfalso. eapply Hno; eauto.
     + subst s2. cbn in Huu. exfalso. eapply Hno; eauto.
     + apply H; auto.
-  - destruct (nth_error (insts st) i) as [[u h]|]; [|exact H].
+  - cbn [step]. destruct (nth_error (insts st) i) as [[u h]|]; [|exact H].
     destruct (user_live _ _ _); [|exact H].
-    intros s1 s2 H1 H2 L1 L2 Huu. cbn [fst sessions now] in *.
+    intros s1 s2 H1 H2 L1 L2 Huu. cbn [fst sessions now upd_open] in *.
     unfold drop_user in H1, H2. apply filter_In in H1. apply filter_In in H2.
     destruct H1, H2. apply H; auto.
-  - intros s1 s2 H1 H2 L1 L2 Huu. cbn [fst sessions now] in *.
+  - intros s1 s2 H1 H2 L1 L2 Huu. cbn [step fst sessions now upd_now] in *.
     apply live_mono in L1. apply live_mono in L2. apply H; auto.
-  - destruct (nth_error (insts st) i) as [[u h]|]; [|exact H].
-    destruct (match v with Fixed => foreign (sessions st) (now st) t u | AsIs => false end); [exact H|].
-    pose proof (uniq_refresh st t H) as HR.
-    destruct k.
-    5: { destruct (find_session _ _ _); [|exact H]. exact HR. }
-    all: destruct h; cbn [negb]; [|exact H]; destruct (find_session _ _ _); [|exact H]; cbn.
-    all: try (destruct (row_get _ _); cbn [fst]); exact HR.
+  - destruct (wop_frame v st i t k) as [Hn [_ [_ [_ [_ Hs]]]]].
+    intros s1 s2 H1 H2 L1 L2 Huu. rewrite Hn in L1, L2.
+    destruct Hs as [Hs|Hs]; rewrite Hs in H1, H2.
+    + apply H; auto.
+    + apply refresh_src in H1. apply refresh_src in H2.
+      destruct H1 as [a [Ha [Ta [Ua La]]]]. destruct H2 as [b [Hb [Tb [Ub Lb]]]].
+      rewrite <- Ta, <- Tb. apply H; auto. congruence.
 Qed.
 
 Lemma run_uniq : forall v ops st, uniq_live st -> uniq_live (fst (run v st ops)).
@@ -557,4 +628,31 @@ Proof.
   apply live_own_elim in H1. apply live_own_elim in H2.
   destruct H1 as [a [Ha [Ta [Ua La]]]]. destruct H2 as [b [Hb [Tb [Ub Lb]]]].
   rewrite <- Ta, <- Tb. apply HU; auto. congruence.
+Qed.
+
+(* ---------- the shared key store: what an import can tell about other profiles ---------- *)
+
+Lemma key_id_taken_own : forall ks kn u,
+  (forall p, In p ks -> fst p = kn -> snd p = u) -> key_id_taken ks kn = key_id_taken (keys_of ks u) kn.
+Proof.
+  intros ks kn u H. unfold key_id_taken, keys_of.
+  destruct (existsb (fun p => fst p =? kn) ks) eqn:E.
+  - apply existsb_exists in E. destruct E as [p [Hin Hp]]. symmetry. apply existsb_exists. exists p.
+    split; [|exact Hp]. apply filter_In. split; [exact Hin|]. apply N.eqb_eq in Hp. apply N.eqb_eq. exact (H p Hin Hp).
+  - symmetry. apply not_true_iff_false. intro X. apply existsb_exists in X. destruct X as [p [Hin Hp]].
+    apply filter_In in Hin. destruct Hin as [Hin _].
+    assert (Y : existsb (fun p => fst p =? kn) ks = true) by (apply existsb_exists; exists p; auto). congruence.
+Qed.
+
+(* if no OTHER profile holds a key under that id, the answer to an import is the one the profile would get alone *)
+Lemma import_alone : forall st i t kn u h,
+  nth_error (insts st) i = Some (u, h) ->
+  (forall p, In p (keys st) -> fst p = kn -> snd p = u) ->
+  snd (step Fixed st (WOp i t (KImportKey kn))) =
+  snd (step Fixed (upd_keys st (keys_of (keys st) u) (next_key st)) (WOp i t (KImportKey kn))).
+Proof.
+  intros st i t kn u h Hi H. cbn [step]. cbn [insts sessions now keys upd_keys next_key]. rewrite Hi.
+  destruct (foreign (sessions st) (now st) t u); [reflexivity|].
+  destruct (find_session (sessions st) (now st) t); [|reflexivity].
+  rewrite <- (key_id_taken_own _ _ _ H). destruct (key_id_taken (keys st) kn); reflexivity.
 Qed.
